@@ -26,11 +26,39 @@ def _has_sym(x):
     return False
 
 
+class OArr(_np.ndarray):
+    """object ndarray whose comparisons stay elementwise-symbolic (numpy would truth-test every element
+    to build a bool array, i.e. fork once per element)"""
+    def _cmp(self, other, op):
+        a = _np.asarray(self)
+        o = other
+        if isinstance(o, (SArrBase,)):
+            return NotImplemented
+        bb = _np.broadcast_arrays(a, _np.asarray(o, dtype=object) if not isinstance(o, _np.ndarray) else o)
+        out = _np.empty(bb[0].shape, dtype=object)
+        for i in _np.ndindex(bb[0].shape):
+            out[i] = getattr(_operator, op)(bb[0][i], bb[1][i])
+        return out.view(OArr)
+
+    def __lt__(self, o): return self._cmp(o, "lt")
+    def __le__(self, o): return self._cmp(o, "le")
+    def __gt__(self, o): return self._cmp(o, "gt")
+    def __ge__(self, o): return self._cmp(o, "ge")
+    def __eq__(self, o): return self._cmp(o, "eq")
+    def __ne__(self, o): return self._cmp(o, "ne")
+    __hash__ = None
+
+
+import operator as _operator
+
+
 def _oarr(x):
-    """to object ndarray"""
+    """to object ndarray (OArr view)"""
     if isinstance(x, _np.ndarray):
-        return x if x.dtype == object else x.astype(object)
-    return _np.array(x, dtype=object)
+        a = x if x.dtype == object else x.astype(object)
+    else:
+        a = _np.array(x, dtype=object)
+    return a.view(OArr)
 
 
 def _elementwise(fname, pyf):
@@ -130,7 +158,11 @@ def _sign1(x):
 
 class _NP(types.ModuleType):
     def __getattr__(self, a):
-        return getattr(_np, a)
+        v = getattr(_np, a)
+        if isinstance(v, (types.FunctionType, types.BuiltinFunctionType)) or type(v).__name__ in ("ufunc", "_ArrayFunctionDispatcher"):
+            if _st.ENGINE is not None:
+                return _wrap_result(v)
+        return v
 
 
 NP = _NP("numpy")
@@ -183,7 +215,7 @@ def _array(x, dtype=None, **kw):
         g = sl._get
         return SArr(Store(lambda idx: g(idx[0]), (_dim(sl.length()),), dt))
     if _has_sym(x):
-        return _np.array(x, dtype=object)
+        return _np.array(x, dtype=object).view(OArr)
     if _st.ENGINE is not None and dtype in (complex, float, None, _np.complex128, _np.float64) and kw.get("ndmin") is None:
         a = _np.array(x, dtype=dtype, **kw)
         return a
@@ -218,7 +250,7 @@ def _filled(shape, val, dtype):
         out = _np.empty(sh, dtype=object)
         pv = {"complex": complex(val), "real": float(val), "int": int(val), "bool": bool(val)}[dt]
         out.fill(pv)
-        return out
+        return out.view(OArr)
     return _np.full(sh, val, dtype=dtype)
 
 
@@ -240,7 +272,7 @@ def _identity(n, dtype=float):
         out.fill(0.0)
         for i in range(n):
             out[i, i] = 1.0
-        return out
+        return out.view(OArr)
     return _np.identity(n, dtype=dtype)
 NP.identity = _identity
 
@@ -462,8 +494,14 @@ NP.trace = _trace
 
 
 def _where(c, *a):
-    if _has_sym(c):
-        raise Undecided("np.where on symbolic condition")
+    if _has_sym(c) or any(_has_sym(x) for x in a):
+        if len(a) != 2:
+            raise Undecided("np.where(cond) without branches on symbolic data")
+        cc, xx, yy = _np.broadcast_arrays(_oarr(c), _oarr(a[0]), _oarr(a[1]))
+        out = _np.empty(cc.shape, dtype=object)
+        for i in _np.ndindex(cc.shape):
+            out[i] = ite(cc[i] if isinstance(cc[i], SV) else bool(cc[i]), xx[i], yy[i])
+        return out
     return _np.where(c, *a)
 NP.where = _where
 
@@ -564,6 +602,27 @@ class _Linalg(types.ModuleType):
 
 
 NP.linalg = _Linalg("numpy.linalg")
+
+
+def _to_oarr(r):
+    if isinstance(r, _np.ndarray) and r.dtype == object and not isinstance(r, OArr):
+        return r.view(OArr)
+    if isinstance(r, tuple):
+        return tuple(_to_oarr(x) for x in r)
+    return r
+
+
+def _wrap_result(f):
+    def g(*a, **k):
+        return _to_oarr(f(*a, **k))
+    g.__name__ = getattr(f, "__name__", "f")
+    g.__wrapped__ = f
+    return g
+
+
+for _k, _v in list(vars(NP).items()):
+    if isinstance(_v, types.FunctionType) and not _k.startswith("_"):
+        setattr(NP, _k, _wrap_result(_v))
 
 
 def module_for(full):
